@@ -57,7 +57,7 @@ def strip_generics(s):
 
 def _qual_follows(s, i):
     """is the '<' at s[i] (preceded by '::') a `<impl at ...>` / `<T as X>` path segment rather than a turbofish?"""
-    return s.startswith('<impl ', i)
+    return s.startswith('<impl at ', i)
 
 
 def _skip_angle(s, i):
@@ -75,6 +75,8 @@ def _skip_angle(s, i):
     return n
 
 
+EXTERNAL_ROOTS = {'tokio', 'std', 'core', 'alloc', 'futures', 'futures_util', 'dashmap', 'once_cell', 'tracing', 'tracing_core', 'bon', 'strum', 'rand', 'prost', 'sha2',
+                  'bytes', 'tokio_rustls', 'rustls', 'socket2', 'hashbrown', 'async_trait', 'serde', 'pot'}
 _WRAPPER_TY = re.compile(r'^(std::mem::ManuallyDrop<|std::mem::MaybeDangling<|std::ptr::Unique<|std::ptr::NonNull<|std::mem::MaybeUninit<|core::mem::ManuallyDrop<)')
 _IMPL_AT = re.compile(r'<impl at ([^:>]+):(\d+):(\d+): (\d+):(\d+)>')
 
@@ -155,6 +157,8 @@ class Program:
                 return self._disamb(out, text)
             return None
         # type-relative or free path
+        if segs[0] in EXTERNAL_ROOTS:
+            return None
         out = []
         owner = segs[-2] if len(segs) >= 2 else None
         for b in cands:
@@ -178,6 +182,9 @@ class Program:
         if len(out) == 1:
             return out[0]
         if len(out) > 1:
+            exact = [b for b in out if not self.impl_of.get(b.name) and self._segments(strip_generics(b.name.split('~')[0])) == segs]
+            if len({b.name.split('~')[0] for b in exact}) == 1:
+                return exact[0]
             return self._disamb(out, text)
         return None
 
@@ -815,6 +822,8 @@ class Interp:
         if c in self.STD_CONSTS:
             v, ty = self.STD_CONSTS[c]
             return self.mk_int(v, ty)
+        if c.startswith(('tracing::', 'tracing_core::')):
+            return Opaque('const:' + c, ident='const:' + c)
         h = self.hooks.get('const')
         if h:
             v = h(self, st, c)
